@@ -105,6 +105,30 @@ pub fn generate(kind: &str, seed: u64, run: u64, thorough: bool) -> Scenario {
             sc.threads = (0..nt)
                 .map(|_| (0..per).map(|_| tr.below(nd)).collect())
                 .collect();
+            if tr.chance(1, 3) {
+                // mixed operations: some threads clone, serialise, validate or optimise clones of
+                // the shared rule while the others match
+                sc.thread_ops = sc
+                    .threads
+                    .iter()
+                    .map(|plan| {
+                        let mut ops: Vec<Op> = plan.iter().map(|i| Op::Match(*i)).collect();
+                        for _ in 0..1 + tr.below(3) {
+                            let op = match tr.below(6) {
+                                0 => Op::CloneRule,
+                                1 => Op::Serialise,
+                                2 => Op::Optimise(1 + tr.below(15) as u8, tr.next_u64() >> 16),
+                                3 => Op::Validate,
+                                4 => Op::Show,
+                                _ => Op::Match(tr.below(nd)),
+                            };
+                            let at = tr.below(ops.len() + 1);
+                            ops.insert(at, op);
+                        }
+                        ops
+                    })
+                    .collect();
+            }
             sc.sched_seed = tr.next_u64();
             sc.shared_doc = tr.chance(1, 3);
             sc.engine_seams = tr.chance(1, 2);
@@ -490,16 +514,23 @@ fn exec_threads(sc: &Scenario) -> Outcome {
             }
         }
     }
-    if sc.threads.is_empty() {
+    let plans: Vec<Vec<Op>> = if !sc.thread_ops.is_empty() {
+        sc.thread_ops.clone()
+    } else {
+        sc.threads.iter().map(|p| p.iter().map(|i| Op::Match(*i)).collect()).collect()
+    };
+    if plans.is_empty() {
         return Outcome::clean(&d, stats);
     }
+    let show0 = show(&rule);
     let strategy = match (&sc.schedule, sc.pct) {
         (Some(l), _) => Strategy::Replay(l.clone()),
         (None, Some((dd, len))) => Strategy::Pct(sc.sched_seed, dd, len),
         (None, None) => Strategy::Random(sc.sched_seed),
     };
-    let sched = Sched::new(sc.threads.len(), strategy);
+    let sched = Sched::new(plans.len(), strategy);
     let rule = Arc::new(rule);
+    let modified: Arc<Mutex<Vec<String>>> = Arc::new(Mutex::new(vec![]));
     let results: Arc<Mutex<Vec<(usize, usize, Result<bool, String>)>>> = Arc::new(Mutex::new(vec![]));
     // shared documents (one per doc index) when shared_doc is set
     let shared_ctx = Ctx::new(false, vec![], Some(sched.clone()));
@@ -510,9 +541,10 @@ fn exec_threads(sc: &Scenario) -> Outcome {
             .collect(),
     );
     let mut bodies: Vec<Box<dyn FnOnce() + Send>> = vec![];
-    for (t, plan) in sc.threads.iter().enumerate() {
+    for (t, plan) in plans.iter().enumerate() {
         let rule = rule.clone();
         let plan = plan.clone();
+        let (modified, show0) = (modified.clone(), show0.clone());
         let docs = sc.docs.clone();
         let render = sc.render.clone();
         let sched2 = sched.clone();
@@ -520,7 +552,33 @@ fn exec_threads(sc: &Scenario) -> Outcome {
         let shared = shared.clone();
         let use_shared = sc.shared_doc;
         bodies.push(Box::new(move || {
-            for i in plan {
+            for op in plan {
+                let i = match op {
+                    Op::Match(i) => i,
+                    Op::CloneRule => {
+                        let _ = guarded(|| drop((*rule).clone()));
+                        continue;
+                    }
+                    Op::Serialise => {
+                        let _ = guarded(|| serde_yaml::to_string(&*rule).map(|s| s.len()).unwrap_or(0));
+                        continue;
+                    }
+                    Op::Optimise(s2, h2) => {
+                        let _ = optimise(&rule, s2, h2);
+                        continue;
+                    }
+                    Op::Validate => {
+                        let _ = guarded(|| rule.validate().is_ok());
+                        continue;
+                    }
+                    Op::Show | Op::Reload => {
+                        let s = show(&rule);
+                        if s != show0 {
+                            modified.lock().unwrap().push(s);
+                        }
+                        continue;
+                    }
+                };
                 if i >= docs.len() {
                     continue;
                 }
@@ -550,7 +608,7 @@ fn exec_threads(sc: &Scenario) -> Outcome {
                             sw_name(sw),
                             format!(
                                 "thread {} doc #{} {}: {} under the schedule, {} sequentially ({} threads, {} decisions, {} context switches)",
-                                t, i, sc.docs[*i].show(), v, base[*i], sc.threads.len(), trace.len(), sched.switches()
+                                t, i, sc.docs[*i].show(), v, base[*i], plans.len(), trace.len(), sched.switches()
                             ),
                         ),
                     );
@@ -566,10 +624,24 @@ fn exec_threads(sc: &Scenario) -> Outcome {
             ),
         }
     }
+    let s_end = show(&rule);
+    if s_end != show0 || !modified.lock().unwrap().is_empty() {
+        push_violation(
+            &mut vs,
+            Violation::new(
+                "rule_modified_by_concurrent_use",
+                sw_name(sw),
+                format!("the shared rule prints differently during or after concurrent use:\n  {}\n  {}", show0.replace('\n', " "), s_end.replace('\n', " ")),
+            ),
+        );
+    }
+    if !sc.thread_ops.is_empty() {
+        stats.inc("runs_with_mixed_thread_operations");
+    }
     stats.add("sched_decisions", trace.len() as u64);
     stats.add("context_switches", sched.switches());
     stats.add("thread_matches", results.len() as u64);
-    stats.inc(&format!("threads_{}", sc.threads.len()));
+    stats.inc(&format!("threads_{}", plans.len()));
     if sc.shared_doc {
         stats.inc("shared_document_runs");
     }
